@@ -110,7 +110,43 @@ Exercised ==
        [] c = "wrap" -> ev.name = "RequestRandom" /\ ev.n < 0
        [] c = "zero_height" -> ev.name = "ZeroHeight" /\ ev.ok /\ pre.pending # {}
        [] c = "reject" -> ~ev.ok}
-Coverage == Exercised = {} \/ PrintT(<<"EXERCISED", Exercised>>)
+(* round 7 (negative probing): every way an answer is written down, as
+   "ans_<kind>[_<pay>]", and the unusual requests / answers *)
+Probes ==
+  IF ev.name = "Init" THEN {} ELSE
+  (IF ev.name = "Respond" THEN {"ans_" \o ev.kind \o (IF ev.pay = "" THEN "" ELSE "_" \o ev.pay)} ELSE {}) \cup
+  {c \in {"seed_short_panic", "far_ok", "far_max", "far_rej", "cap_denom_rej", "cap_zero_rej", "insufficient_rej",
+          "interval0_ok", "interval1_ok", "respond_before_start", "respond_in_start_block", "respond_consumer",
+          "respond_wrong_provider", "respond_twice", "same_due_other_blocks", "same_due_consumers", "drop_badhex",
+          "plain_with_cap"} :
+     CASE c = "seed_short_panic" -> ev.name = "Respond" /\ ev.panic /\ ev.kind = "short"
+       [] c = "far_ok" -> ev.name = "RequestRandom" /\ ev.ok /\ ev.n >= 536870912
+       [] c = "far_max" -> ev.name = "RequestRandom" /\ ev.ok /\ pre.h + ev.n = FarMax
+       [] c = "far_rej" -> ev.name = "RequestRandom" /\ ~ev.ok /\ pre.h + ev.n = FarMax + 1
+       [] c = "cap_denom_rej" -> ev.name = "RequestRandom" /\ ev.oracle /\ ev.pay \in CapPays /\ ev.cap > 0
+       [] c = "cap_zero_rej" -> ev.name = "RequestRandom" /\ ~ev.ok /\ Apply(pre, ev).why = "fee_cap" /\ ev.cap = 0
+       [] c = "insufficient_rej" -> ev.name = "RequestRandom" /\ ~ev.ok /\ Apply(pre, ev).why = "insufficient_fee"
+       [] c = "interval0_ok" -> ev.name = "RequestRandom" /\ ev.ok /\ ev.n = 0
+       [] c = "interval1_ok" -> ev.name = "RequestRandom" /\ ev.ok /\ ev.n = 1
+       [] c = "plain_with_cap" -> ev.name = "RequestRandom" /\ ev.ok /\ ~ev.oracle /\ ev.cap > 0
+       [] c = "respond_before_start" -> ev.name = "Respond" /\ ev.ctx \in DOMAIN pre.ctx /\ pre.ctx[ev.ctx].state = "paused"
+                                  /\ pre.ctx[ev.ctx].bcount = 0 /\ ev.who \in DOMAIN pre.bind
+       [] c = "respond_in_start_block" -> ev.name = "Respond" /\ ev.ctx \in DOMAIN pre.ctx /\ pre.ctx[ev.ctx].state = "running"
+                                  /\ pre.ctx[ev.ctx].bcount = 0 /\ ev.who \in DOMAIN pre.bind
+       [] c = "respond_consumer" -> ev.name = "Respond" /\ ev.ctx \in DOMAIN pre.ctx /\ DOMAIN pre.ctx[ev.ctx].reqs # {}
+                                  /\ ev.who = pre.ctx[ev.ctx].consumer
+       [] c = "respond_wrong_provider" -> ev.name = "Respond" /\ ev.ctx \in DOMAIN pre.ctx /\ DOMAIN pre.ctx[ev.ctx].reqs # {}
+                                  /\ ev.who \notin DOMAIN pre.ctx[ev.ctx].reqs /\ ev.who \in DOMAIN pre.earned
+       [] c = "respond_twice" -> ev.name = "Respond" /\ ev.ctx \in DOMAIN pre.ctx /\ ev.who \in DOMAIN pre.ctx[ev.ctx].reqs
+                                  /\ ~pre.ctx[ev.ctx].reqs[ev.who].act
+       [] c = "same_due_other_blocks" -> ev.name = "BeginBlock" /\ ~ev.halt
+                                  /\ Cardinality({q.reqH : q \in {x \in pre.pending : x.due = pre.h - 1}}) >= 2
+       [] c = "same_due_consumers" -> ev.name = "BeginBlock" /\ ~ev.halt
+                                  /\ Cardinality({q.consumer : q \in {x \in pre.pending : x.due = pre.h - 1}}) >= 2
+       [] c = "drop_badhex" -> ev.name = "Respond" /\ ev.ok /\ ev.kind = "badhex" /\ ev.ctx \in DOMAIN pre.opend
+                                  /\ ev.ctx \notin DOMAIN st.opend /\ Changed(pre, st) = {}}
+AllExercised == Exercised \cup Probes
+Coverage == AllExercised = {} \/ PrintT(<<"EXERCISED", AllExercised>>)
 
 Report == (l = Len(Trace) + 1) => PrintT(<<"TRACE-END", Len(Trace), drift, driftAt>>)
 
